@@ -11,10 +11,20 @@ KINDS = {
     'C08': {'c08-partial-batch'},
     'C09': {'c09-redelivery', 'c09-skip'},
 }
+# per property: (tiny, medium, thorough). tiny = payloads <= 4 KiB (one block, no rotation): broad set of histories, every
+# crash point; medium = payloads <= 32 MiB (rotation, multi-unit blocks) on short histories; thorough adds longer ones.
+# 'pre|post': operations after the bar run after the crash recovery (appends, clean restarts) before the drain;
+# suffix '/b' = the drain after the last restart starts with a batch read instead of read_next.
 SKELS = {
-    'C07': (['a,X|a,X', 'a,a:u|a:u,X', 'a,a', 'a,A2', 'A2,a', 'a,n,a'], ['a,a,a', 'A3', 'a,A2,a', 'a:u,a,a:u', 'A2,n,A2', 'a,X,a|a,X', 'A2,X|a,a,X']),
-    'C08': (['A2', 'a,A2', 'A3'], ['A4', 'a,A3,a', 'A2,A2']),
-    'C09': (['a,n', 'a,a,n,n', 'a,a,b', 'a,n,a,n'], ['a,a,a,n,b', 'A3,n,n', 'a,a,n,a,b,n']),
+    'C07': (['a,X|a,X', 'a,a:u|a:u,X', 'a,a', 'a,A2', 'A2,a', 'a,n,a', 'a,a:u,a', 'a,X,a|a,X', 'a,a|a/b'],
+            ['a,a', 'a,A2', 'a,a:u|a:u,X'],
+            ['a,a,a', 'A3', 'a,A2,a', 'a:u,a,a:u', 'A2,n,A2', 'A2,X|a,a,X']),
+    'C08': (['A2', 'a,A2', 'A3', 'A2,A2', 'a,n,A2', 'A2|a,X'],
+            ['A2', 'a,A2'],
+            ['A4', 'a,A3,a', 'A2,A2']),
+    'C09': (['a,n', 'a,a,n,n', 'a,a,b', 'a,n,a,n', 'a,n,n', 'a,n,a|a,X', 'a,a,n,a|a/b', 'a,a,n,a|a,X/b', 'a,b,a,b', 'a,a,n,X,a,n'],
+            ['a,n', 'a,a,n'],
+            ['a,a,a,n,b', 'A3,n,n', 'a,a,n,a,b,n', 'a,a,n,n', 'a,a,b']),
 }
 
 
@@ -45,7 +55,10 @@ def build_script(r, backend, consistency, pe):
     for t in topics:
         n = sum(len(o.get('entries', [])) for o in ops if o.get('topic') == t)
         for _ in range(n + 2):
-            ops.append(dict(op='read_next', topic=t, checkpoint=True, drain=True))
+            if r['job'].get('drain') == 'batch':
+                ops.append(dict(op='batch_read', topic=t, checkpoint=True, budget=2 ** 64 - 1, drain=True))
+            else:
+                ops.append(dict(op='read_next', topic=t, checkpoint=True, drain=True))
     return dict(config=dict(backend=backend, consistency=consistency, persist_every=pe), ops=ops)
 
 
@@ -159,9 +172,9 @@ def run(prop, tier, seed):
     rep = Report(prop, tier, seed)
     runner.clear_replays(prop)
     kinds = KINDS[prop]
-    q, t = SKELS[prop]
-    skels = q + (t if tier == 'thorough' else [])
-    rep.bounds = dict(histories='skeletons %s; payload sizes symbolic 0 .. 32 MiB; one crash per history, placed right before any I/O event (data write, flush, file creation steps, index persist steps, io_uring submission) incl. the events of the initial open' % skels,
+    tiny, medium, more = SKELS[prop]
+    skels = tiny + medium + (more if tier == 'thorough' else [])
+    rep.bounds = dict(histories='skeletons tiny=%s medium=%s more=%s (the first group with payloads 0 .. 4 KiB, the others 0 .. 32 MiB; sizes symbolic); one crash per history, placed right before any I/O event (data write, flush, file creation steps, index persist steps, io_uring submission) incl. the events of the initial open' % (tiny, medium, more if tier == 'thorough' else []),
                       crash_model='process crash: completed events persist, the interrupted one and everything after it do not happen; an io_uring batch submission is one event on the FD path (kernel-side partial completion is outside the claim), the sequential path has one event per entry',
                       after_crash='fresh process, real recovery, every topic drained with read_next')
     rep.assumptions = list(envmodel.ASSUMPTIONS) + ['I/O events of background threads (fsync worker, marker persister) are not crash points; the native hook counts events of the calling thread only']
@@ -186,15 +199,21 @@ def run(prop, tier, seed):
                 rep.inconclusive.append('UNCONFIRMED (no native harness for the private should_persist): %s witness %s' % (r['detail'], r['witness']))
         if len(agg['results']) < 4:
             rep.inconclusive.append('vacuity: should_persist explored %d path classes (expected >= 4)' % len(agg['results']))
-    jobs = []
-    for s in skels:
-        # 'pre|post': operations after the bar run after the crash recovery (more appends, clean restarts), then the drain
+    def mkjob(s, b, **kw):
+        s, _, dr = s.partition('/')
         pre, _, post = s.partition('|')
-        for b in ('fd', 'mmap'):
-            # histories with a post-crash suffix use small entries (no rotation): they are about which files recovery scans
-            jobs.append(dict(skel=pre, backend=b, consistency='StrictlyAtOnce', **({'post': post, 'sizecap': 4096} if post else {})))
+        j = dict(skel=pre, backend=b, consistency='StrictlyAtOnce', **kw)
+        if post:
+            j['post'] = post
+        if dr == 'b':
+            j['drain'] = 'batch'
+        return j
+    jobs = [mkjob(s, b, sizecap=4096) for s in tiny for b in ('fd', 'mmap')]
     if prop == 'C09':
-        jobs += [dict(skel=s, backend='fd', consistency='AtLeastOnce', persist_every=2) for s in skels[:2]]
+        jobs += [dict(mkjob(s, 'fd', sizecap=4096), consistency='AtLeastOnce', persist_every=pe_) for s in tiny[:5] for pe_ in (2, 3)]
+    jobs += [mkjob(s, b) for s in medium for b in ('fd', 'mmap')]
+    if tier == 'thorough':
+        jobs += [mkjob(s, b) for s in more for b in ('fd', 'mmap')]
     agg = runner.explore_jobs('rsym.drivers.crash', 'mk', docs, jobs, dict(seed=seed, eager_div=6), min(12, runner.ncpu()), 240 if tier == 'quick' else 2400)
     rep.absorb(agg)
     res = agg['results']
